@@ -116,6 +116,8 @@ def _feasible(path, assume=()):
                     nm = set(x.id for x in ast.walk(v_) if isinstance(x, ast.Name))
                     if n.ast.targets[0].id not in nm:
                         flags[n.ast.targets[0].id] = (v_, nm)
+                elif isinstance(v_, ast.Constant) and (v_.value is None or isinstance(v_.value, (bool, int))):
+                    facts[n.ast.targets[0].id] = (bool(v_.value), {n.ast.targets[0].id})
     return True
 
 
@@ -166,6 +168,11 @@ class _State(object):
                     if n.ast.targets[0].id not in nm:
                         flags = dict(flags)
                         flags[n.ast.targets[0].id] = (v_, nm)
+                elif isinstance(v_, ast.Constant) and (v_.value is None or isinstance(v_.value, (bool, int))):
+                    # flag = True / False / None / 0 / 1: the truth value of the flag is known from here on
+                    x_ = n.ast.targets[0].id
+                    facts = dict(facts)
+                    facts[x_] = (bool(v_.value), frozenset([x_]))
         st = _State((), facts, flags)
         st.assumed = self.assumed
         return st
@@ -253,6 +260,8 @@ class CFG(object):
         is none.  The shortest candidate is tried first; only when it is contradictory are other simple paths enumerated
         (bounded: if the bound is hit the candidate is returned, i.e. the answer errs on the side of reporting)."""
         goals = set(goal) if isinstance(goal, (set, list, tuple, frozenset)) else {goal}
+        if assume and not isinstance(start, (set, list, tuple, frozenset)):
+            assume = list(assume) + self.flag_facts_at(start, set(a for a, v, nm in assume))
         if via is not None:
             q = self._path_dfs(start, goals, set(avoid), skip_labels, include_start, set(avoid_edges), assume=assume, via=set(via))
             return None if q == 'limit' else q
@@ -261,6 +270,38 @@ class CFG(object):
             return p
         q = self._path_dfs(start, goals, set(avoid), skip_labels, include_start, set(avoid_edges), assume=assume)
         return p if q == 'limit' else q
+
+    def flag_facts_at(self, node, have=()):
+        """[(name, truth value, {name})] for locals that hold a constant flag value (True / False / None / 0 / 1) whenever *node* is
+        reached: the assignment dominates the node and no other assignment to the name can be passed on the way from it"""
+        if not hasattr(self, '_flagdefs'):
+            d = {}
+            for n in self.nodes:
+                if n.ast is None or n.kind not in ('stmt', 'for', 'with', 'except'):
+                    continue
+                root = n.ast if n.kind == 'stmt' else (n.ast.target if n.kind == 'for' else n.ast)
+                if n.kind == 'stmt' and isinstance(n.ast, (ast.FunctionDef, ast.AsyncFunctionDef, ast.ClassDef)):
+                    continue
+                for x in ast.walk(root):
+                    if isinstance(x, ast.Name) and isinstance(x.ctx, (ast.Store, ast.Del)):
+                        d.setdefault(x.id, []).append(n)
+            self._flagdefs = d
+        out = []
+        for name, ds in self._flagdefs.items():
+            if name in have:
+                continue
+            for d in ds:
+                a = d.ast
+                if not (d.kind == 'stmt' and isinstance(a, ast.Assign) and len(a.targets) == 1 and isinstance(a.targets[0], ast.Name)
+                        and isinstance(a.value, ast.Constant) and (a.value.value is None or isinstance(a.value.value, (bool, int)))):
+                    continue
+                if d is node or self._path_bfs(self.entry, {node}, {d}, ('exc',), True, ()) is not None:
+                    continue          # does not dominate
+                if any(o is not d and (o is node or self._path_bfs(o, {node}, {d}, ('exc',), False, ()) is not None) for o in ds):
+                    continue          # another binding may come in between
+                out.append((name, bool(a.value.value), {name}))
+                break
+        return out
 
     def _path_dfs(self, start, goals, avoid, skip_labels, include_start, avoid_edges, limit=60000, assume=(), via=None):
         """shortest feasible path by breadth-first search over (node, facts about local names) pairs"""
